@@ -49,20 +49,20 @@ CHECKS = {
    "deterministic simulation: seeded schedules + peer-drop fault + time-out firings, verdict-truth oracle", "5/C04"),
  "C05": ("mtsim", "exploration",
    "The real MTGraph::run executes generated graphs (chains with rate changers, FIR/FFT filters, a tee/merge diamond, HDLC packet stage; sources of 0..3 capacities; 1-4 page streams; shuffled add order) with every block thread under the baton scheduler. run() must return (no deadlock; no stall of 40000 steps without any sample moving, under fair strategies), leave no thread, and the sink must equal a sequential reference execution of the same recipe.",
-   "Reference = same blocks driven sequentially on large streams. Diamond skew < capacity/4. SC interleavings.",
+   "Reference = same blocks driven sequentially on large streams until nothing moves. Recipes include harness stages Framed (one frame per call, answers a wait from the call that moved data) and Lazy (answers Pending before each move). Diamond skew < capacity/4; packets <= capacity/2. SC interleavings.",
    "deterministic simulation: seeded schedules of the real runner's threads, reference-execution oracle, stall/deadlock detection", "5/C05"),
  "C06": ("graphsim", "exploration",
    "The real Graph::run executes the same recipe space under virtual time, once per add order (all permutations up to 4 blocks, else 8 incl. reverse). Each time run() must return Ok with the sink equal to the reference; returning with data in flight shows as a short sink.",
-   "Single-threaded; the schedule dimension is the block order and buffer sizes.",
+   "Single-threaded; the schedule dimension is the block order and buffer sizes. Recipes include the harness stages Framed (wait verdict from a call that moved data) and Lazy (Pending).",
    "deterministic simulation: add-order/stream-size configuration search with virtual sleep, reference-execution oracle", "5/C06"),
  "C07": ("mtsim+graphsim", "fault_enumeration",
-   "One injected fault per run: cancel() from a canceller thread after a seeded number of scheduling points (MTGraph) or from inside a block's k-th call (Graph), or a pass-through block failing on its k-th call at a seeded chain position; infinite and finite sources; both runners. After cancel() returned no block may be invoked more than 2 (MTGraph) / 1 (Graph) more times, run() returns Ok and leaves no thread; a failing work() must come back as that Err from run(), never a panic, hang or Ok.",
-   "Bound on further calls is the harness's reading of 'bounded'. Spawn failure is not injected (not part of the property).",
+   "Injected faults: cancel() from a canceller thread after a seeded number of scheduling points (MTGraph) or from inside a block's k-th call (Graph), or a pass-through block failing on its k-th call at a seeded chain position; infinite and finite sources; both runners. After cancel() returned no block may be invoked more than 2 (MTGraph) / 1 (Graph) more times, run() returns Ok and leaves no thread; a failing work() must come back as that Err from run(), never a panic, hang or Ok.",
+   "Bound on further calls is the harness's reading of 'bounded'. Combined legs: a failing block in a graph that is also cancelled (by a canceller thread, another block, or the failing block itself) must still come back as the block's error whenever the failing call happened. Spawn failure is not injected (not part of the property).",
    "deterministic simulation: fault injection (cancel / block error) at seeded points under seeded schedules", "5/C07"),
 
  "C13": ("rig", "fault_enumeration",
    "A transmitter model (CRC-16/X.25, LSB-first, stuffing, 1-3 opening flags, shared/separate flags, payloads 0..max+2 incl. stuffing-heavy contents) feeds the real HdlcDeframer through the drip-feed rig with channel faults (random noise prefix, prefixes ending in a partial flag, 1-2 flipped bits in a chosen frame) and seeded min/max/checksum/fix settings. The output list must have an order-preserving explanation: every MUST frame delivered once, no flipped frame delivered (or only repaired to the original), nothing with a failing FCS according to a spec-level reference deframer, nothing unexplained on a clean channel, sizes within bounds.",
-   "Boundary sizes, empty frames with min_size 0, frames whose delimiting flag is overlapped by another flag pattern, and reference-valid noise-born frames are MAY.",
+   "Boundary sizes, empty frames with min_size 0 and reference-valid noise-born frames are MAY. Two listed known findings (single-bit fixing repairing a cut-off piece / noise into an untransmitted payload) are reported as KNOWN-FINDING lines.",
    "deterministic simulation: channel fault injection (noise, bit flips) x seeded delivery schedules, reference-deframer oracle", "5/C13"),
 
  "C15": ("rig", "fault_enumeration",
